@@ -74,6 +74,29 @@ pub uninterp spec fn display_of(x: f64) -> Seq<char>;      // Rust's Display of 
 pub uninterp spec fn rust_float(s: Seq<char>) -> bool;     // what str::parse::<f64> accepts (a superset: exponents, "inf", "+1", ...)
 pub uninterp spec fn rust_value(s: Seq<char>) -> f64;
 
+pub uninterp spec fn sign_neg(x: f64) -> bool;            // the sign bit
+pub open spec fn lit(s: &str) -> Seq<char> { s@ }
+#[verifier::external_body]
+pub fn shim_is_pos_inf(x: f64) -> (r: bool) ensures r == is_pos_inf(x) { x == f64::INFINITY }
+#[verifier::external_body]
+pub fn shim_is_neg_inf(x: f64) -> (r: bool) ensures r == is_neg_inf(x) { x == f64::NEG_INFINITY }
+// f64::to_string (Display): "NaN" for a NaN, "0" / "-0" for the zeros (the sign is printed), otherwise the shortest
+// decimal representation without an exponent
+#[verifier::external_body]
+pub fn shim_f64_to_string(x: f64) -> (r: String)
+    ensures is_nan(x) ==> r@ == lit("NaN"),
+            is_zero(x) && !sign_neg(x) ==> r@ == lit("0"),
+            is_zero(x) && sign_neg(x) ==> r@ == lit("-0"),
+            !is_nan(x) && !is_zero(x) ==> r@ == display_of(x),
+{ x.to_string() }
+#[verifier::external_body]
+pub fn shim_lit(s: &str) -> (r: String) ensures r@ == lit(s) { s.to_string() }
+#[verifier::external_body]
+pub fn shim_clone_string(s: &String) -> (r: String) ensures r@ == s@ { s.to_string() }
+impl XmlNode {
+    #[verifier::external_body]
+    pub fn as_string_value(&self) -> (r: error::Result<String>) { unimplemented!() }
+}
 #[verifier::external_body]
 pub fn shim_nan() -> (r: f64) ensures is_nan(r) { f64::NAN }
 // v.parse::<f64>().unwrap_or(f64::NAN) on an ARBITRARY string: std's grammar decides
@@ -209,6 +232,22 @@ def build(repo=None):
             Rule('R7', r'v\.parse::<f64>\(\)\.unwrap_or\(f64::NAN\)', 'shim_parse_any(v)', "str::parse::<f64> on the raw text -> shim: std's own grammar decides what is a number"),
             Rule('R19', r'xpath_number\(v\)', 'xpath_number(v.as_str())', '&String -> &str')],
         ensures=POST)
+    fns['string_try_from'] = Fn(
+        FM, 'impl TryFrom<&Value> for String', 'try_from', props=P, safety_props=P, label='xpath::model::String::try_from(&Value)',
+        sig_rules=[Rule('R11', r'Result<Self, Self::Error>', 'Result<String, error::Error>', 'associated types of the TryFrom impl spelled out'), Rule('R12', r'^fn ', 'pub fn ', 'visibility')],
+        rules=[Rule('R11', r'Result<Self, Self::Error>', 'Result<String, error::Error>', 'associated types of the TryFrom impl spelled out'),
+               Rule('R22', r'match \*v \{\s*f64::INFINITY => (Ok\("Infinity"\.to_string\(\)\)),\s*f64::NEG_INFINITY => (Ok\("-Infinity"\.to_string\(\)\)),\s*_ => (Ok\(v\.to_string\(\)\)),\s*\}',
+                    lambda m: f'if shim_is_pos_inf(*v) {{ {m.group(1)} }} else if shim_is_neg_inf(*v) {{ {m.group(2)} }} else {{ Ok(shim_f64_to_string(*v)) }}' + '\n' * m.group(0).count('\n'),
+                    'match on float constants -> if-chain over the same three cases (Verus has no float patterns); f64::to_string -> shim with the contract of Display'),
+               Rule('R6', r'"(true|false|Infinity|-Infinity|)"\.to_string\(\)', r'shim_lit("\1")', 'str::to_string of a literal -> shim'),
+               Rule('R6', r'Ok\(v\.to_string\(\)\)', 'Ok(shim_clone_string(v))', 'String::to_string -> shim (a copy)')],
+        ensures=[('C09:nan_is_spelled_NaN', 'value is Number && is_nan(value->Number_0) ==> r is Ok && r->Ok_0@ == lit("NaN")'),
+                 ('C09:the_infinities_are_spelled_Infinity', 'value is Number && is_pos_inf(value->Number_0) ==> r is Ok && r->Ok_0@ == lit("Infinity")'),
+                 ('C09:the_negative_infinity_is_spelled_minus_Infinity', 'value is Number && is_neg_inf(value->Number_0) ==> r is Ok && r->Ok_0@ == lit("-Infinity")'),
+                 ('C09:a_zero_of_either_sign_is_spelled_0', 'value is Number && is_zero(value->Number_0) && !is_pos_inf(value->Number_0) && !is_neg_inf(value->Number_0) ==> r is Ok && r->Ok_0@ == lit("0")'),
+                 ('C09:booleans_are_spelled_true_and_false', 'value is Boolean ==> r is Ok && r->Ok_0@ == (if value->Boolean_0 { lit("true") } else { lit("false") })'),
+                 ('C09:a_string_is_itself', 'value is Text ==> r is Ok && r->Ok_0@ == value->Text_0@')],
+        requires=[('the_float_classes_are_disjoint', 'value is Number ==> !(is_nan(value->Number_0) && (is_pos_inf(value->Number_0) || is_neg_inf(value->Number_0))) && !(is_pos_inf(value->Number_0) && is_neg_inf(value->Number_0))')])
     slots = '''
 pub struct __ConvF64 {}
 #[verifier::external_body]
@@ -223,7 +262,7 @@ pub fn text_to_number(s: &String) -> (r: f64) { unimplemented!() }
 '''
     if repaired:
         slots += LEMMA_SCAN + '\n//@@ xpath_number\n'
-    slots += '\nimpl __ConvF64 {\n    //@@ f64_try_from\n}\n'
+    slots += '\nimpl __ConvF64 {\n    //@@ f64_try_from\n}\npub struct __ConvString {}\nimpl __ConvString {\n    //@@ string_try_from\n}\n'
     return ENV.replace('@SLOTS@', slots), fns
 
 
